@@ -542,14 +542,60 @@ Qed.
 (* a restart always cures the ghost *)
 Theorem restart_snapshot_is_matching i : P_snap_list i (snapshot_after_restart i) = true.
 Proof.
-  pose proof (snapshot_is_matching (mkSnapIn (si_namespaces i) (si_names i) (si_initial i) (si_ops i) None true) eq_refl) as H.
+  pose proof (snapshot_is_matching (mkSnapIn (si_namespaces i) (si_names i) (si_initial i) (si_ops i) None true (si_filter i) (si_keep i)) eq_refl) as H.
   unfold P_snap in H. cbn [negb andb si_restart] in H. apply andb_true_iff in H as [_ H]. exact H.
 Qed.
 
 Theorem ghost_refuted : exists i, T_ghost i = true /\ P_snap i (snapshot i) (snapshot_after_restart i) false = false.
 Proof.
-  exists (mkSnapIn [] [] [(1, 1, 1)] [(OCreate, (1, 2, 1))] (Some (2, 2, 7)) false). split; vm_compute; reflexivity.
+  exists (mkSnapIn [] [] [(1, 1, 1)] [(OCreate, (1, 2, 1))] (Some (2, 2, 7)) false false true). split; vm_compute; reflexivity.
 Qed.
+
+(* ---- what the entries show ---- *)
+Lemma optN_eqb_refl a : optN_eqb a a = true.
+Proof. destruct a; simpl; [apply N.eqb_refl | reflexivity]. Qed.
+Lemma view_eqb_refl v : view_eqb v v = true.
+Proof. destruct v as [[[a b] c] d]. simpl. now rewrite !N.eqb_refl, !optN_eqb_refl. Qed.
+
+Lemma shown_expected i o : shown i o = expected_view i o.
+Proof. reflexivity. Qed.
+
+Lemma v_key_shown i a b : v_key_ltb (shown i a) (shown i b) = key_ltb a b.
+Proof. reflexivity. Qed.
+
+Lemma v_sorted_map i l : v_strictly_sorted (map (shown i) l) = strictly_sorted l.
+Proof.
+  induction l as [|x r IH]; [reflexivity|]. destruct r as [|y r']; [reflexivity|].
+  change (map (shown i) (x :: y :: r')) with (shown i x :: shown i y :: map (shown i) r').
+  cbn [v_strictly_sorted strictly_sorted]. rewrite v_key_shown. f_equal. exact IH.
+Qed.
+
+(* the list-level statement carries over to what the entries show, whatever the binding's
+   jqFilter / keepFullObjectsInMemory: an entry shows the CURRENT object of the cluster *)
+Lemma view_of_matching i l : P_snap_list i l = true -> P_view_list i (map (shown i) l) = true.
+Proof.
+  unfold P_snap_list, P_view_list. intros H. apply andb_true_iff in H as [H H3]. apply andb_true_iff in H as [H1 H2].
+  rewrite v_sorted_map, H1. cbn [andb]. apply andb_true_iff. split.
+  - apply forallb_forall. intros v Hv. apply in_map_iff in Hv as [o [<- Ho]].
+    rewrite forallb_forall in H2. specialize (H2 o Ho). apply andb_true_iff in H2 as [M Hin].
+    apply existsb_exists. exists o. split; [now apply mem_obj_in|]. rewrite M. cbn [andb]. apply view_eqb_refl.
+  - apply forallb_forall. intros o Ho. rewrite forallb_forall in H3. specialize (H3 o Ho).
+    destruct (matching i o); [|reflexivity]. apply mem_obj_in in H3.
+    unfold mem_view. apply existsb_exists. exists (shown i o). split; [now apply in_map|]. apply view_eqb_refl.
+Qed.
+
+Theorem view_is_matching i : si_ghost i = None ->
+  P_view i (snapshot_view i) (restart_view i) false = true.
+Proof.
+  intros HG. pose proof (snapshot_is_matching i HG) as H. unfold P_snap in H. cbn [negb andb] in H.
+  apply andb_true_iff in H as [H1 H2]. unfold P_view, snapshot_view, restart_view. cbn [negb andb].
+  rewrite (view_of_matching i _ H1). cbn [andb]. destruct (si_restart i); [|reflexivity]. now apply view_of_matching.
+Qed.
+
+(* a change that touches nothing the filter selects is shown all the same *)
+Example view_outside_filter :
+  snapshot_view (mkSnapIn [] [] [(1, 1, 13)] [(OModify, (1, 1, 23))] None false true true) = [(1, 1, Some 3, Some 23)].
+Proof. vm_compute. reflexivity. Qed.
 
 Theorem group_refuted : T_grp false = true /\ (let (k, o) := grp false in P_grp k o false) = false
                         /\ (let (k, o) := grp true in P_grp k o false) = true.
